@@ -300,7 +300,9 @@ func init() {
 				}
 			}
 		}
-		ctx.Meta.Rule = "request objects under the three profiles x every required mechanism carried by the authorization parameters (PKCE S256/plain, openid scope, nonce, response type, response mode, dpop_jkt for the implicit flow) x {authorize by value, authorize by reference, par (+ request_uri at /authorize)} x JAR optional/required x six placements (inside only, outside only, both, neither, inside with nothing outside, outside alone), each code redeemed without code_verifier; distinct by projected trace; non-trivial = at least one artifact obtained and one refusal"
+		c11jParRequired(ctx, &cases, stats)
+		c11jCibaClients(ctx, &cases, stats)
+		ctx.Meta.Rule = "PAR REQUIRED (server switch, client switch) x JAR optional/required x JAR by reference on/off x three profiles x {plain request, request object by value, by reference over https / http / unfetchable, genuine pushed request_uri redeemed and reused, another client's pushed request_uri, a urn nobody pushed, pushed request_uri together with an object, the three direct forms by the client not bound to PAR}; CIBA JAR {off, enabled, required} on the server x backchannel client registered with {no algorithm, only request_object_signing_alg, only backchannel_authentication_request_signing_alg, both} x {plain, signed, plain} backchannel requests x three profiles; request objects under the three profiles x every required mechanism carried by the authorization parameters (PKCE S256/plain, openid scope, nonce, response type, response mode, dpop_jkt for the implicit flow) x {authorize by value, authorize by reference, par (+ request_uri at /authorize)} x JAR optional/required x six placements (inside only, outside only, both, neither, inside with nothing outside, outside alone), each code redeemed without code_verifier; distinct by projected trace; non-trivial = at least one artifact obtained and one refusal"
 		c11jWrite(ctx, cases, stats)
 	}})
 }
